@@ -143,6 +143,18 @@ int yr_arena_ptr_to_ref(YR_ARENA* arena, const void* address, YR_ARENA_REF* ref)
 #elif OPK == VS_DEFINED
 #define OPC OP_DEFINED
 #define UNARY 1
+#elif OPK == VS_DEQ
+#define OPC OP_DBL_EQ
+#elif OPK == VS_DNEQ
+#define OPC OP_DBL_NEQ
+#elif OPK == VS_DLT
+#define OPC OP_DBL_LT
+#elif OPK == VS_DGT
+#define OPC OP_DBL_GT
+#elif OPK == VS_DLE
+#define OPC OP_DBL_LE
+#elif OPK == VS_DGE
+#define OPC OP_DBL_GE
 #else
 #error OPK
 #endif
